@@ -98,7 +98,7 @@ Section Files.
   Definition from_ptr (o : option bool) : bool := match o with Some b => b | None => false end.
 
   (* the layers the dial hooks put on the raw connection, outermost (closest to the wire) first *)
-  Inductive layer := LHeadByte | LTls | LWebsocket.
+  Inductive layer := LHeadByte | LTls | LWebsocket | LQuic.
 
   Inductive dial_result :=
   | DialErr                                                   (* NewClientTLSConfig failed *)
@@ -122,6 +122,18 @@ Section Files.
         if String.eqb (ct_protocol c) "websocket" then DialPlan tls "tcp" ([LWebsocket] ++ head ++ tl)
         else if String.eqb (ct_protocol c) "wss" then DialPlan tls "tcp" (tl ++ [LWebsocket])
         else DialPlan tls (ct_protocol c) (head ++ tl)
+    end.
+
+  (* Open(), protocol quic: realConnect is not used; the QUIC handshake always carries a TLS
+     configuration: the configured one when TLS is enabled, else NewClientTLSConfig("", "", "", sn) *)
+  Definition open_quic (c : client_transport) (server_addr : string) : dial_result :=
+    let sn := if String.eqb (tf_server_name (ct_tls c)) "" then server_addr else tf_server_name (ct_tls c) in
+    let r := if from_ptr (ct_tls_enable c)
+             then new_client_tls (tf_cert (ct_tls c)) (tf_key (ct_tls c)) (tf_ca (ct_tls c)) sn
+             else new_client_tls "" "" "" sn in
+    match r with
+    | Some p => DialPlan (Some p) "quic" [LQuic]
+    | None => DialErr
     end.
 
   Definition plan_has_tls (d : dial_result) : bool :=
